@@ -22,4 +22,17 @@ theorem bin32_default : (Generated.macatBins.getD 2 (0, .ff)).2 = .tt := by deci
 /-- bare integers are multiplied by time.Second; otherwise time.ParseDuration -/
 theorem duration_rule : Generated.macatDuration = ["strconv.Atoi", "Duration(val)*Duration(time.Second)", "time.ParseDuration", "Duration(dur)"] := by decide
 
+/-- macat's byte path, statement by statement: `--data` / `--file` store exactly the bytes given (`--file` reads until end
+    of file, whatever kind of file it is); every loop prints each message it received before doing anything else with
+    the socket (so a received message is printed whatever happens to the reply), builds every outgoing message from
+    the stored payload, and stops on the first error.  Any edit to these functions re-opens this obligation. -/
+theorem macat_loops : Generated.macatShapes = [
+  ("setSendData", ["if a.sendData!=nil", ">return errors.New(\"data or file already set\")", "a.sendData=[]byte(data)", "return nil"]),
+  ("setSendFile", ["if a.sendData!=nil", ">return errors.New(\"data or file already set\")", "var err error", "a.sendData,err=ioutil.ReadFile(path)", "if err!=nil", ">return err", "return nil"]),
+  ("recvLoop", ["sock:=a.sock", "for", ">msg,err:=sock.RecvMsg()", ">switch err", ">>case mangos.ErrProtoState", ">>>return nil", ">>case mangos.ErrRecvTimeout", ">>>return nil", ">>case nil", ">>default", ">>>return fmt.Errorf(\"recv: %v\",err)", ">a.printMsg(msg)", ">msg.Free()"]),
+  ("sendLoop", ["sock:=a.sock", "count:=a.count", "if a.sendData==nil", ">return errors.New(\"no data to send\")", "for", ">switch count", ">>case -1", ">>case 0", ">>>return nil", ">>default", ">>>count--", ">msg:=mangos.NewMessage(len(a.sendData))", ">msg.Body=append(msg.Body,a.sendData)", ">err:=sock.SendMsg(msg)", ">if err!=nil", ">>return fmt.Errorf(\"send: %v\",err)", ">if a.sendInterval>=0&&count!=0", ">>time.Sleep(time.Duration(a.sendInterval))"]),
+  ("sendRecvLoop", ["sock:=a.sock", "count:=a.count", "for", ">switch count", ">>case -1", ">>case 0", ">>>return nil", ">>default", ">>>count--", ">msg:=mangos.NewMessage(len(a.sendData))", ">msg.Body=append(msg.Body,a.sendData)", ">err:=sock.SendMsg(msg)", ">if err!=nil", ">>return fmt.Errorf(\"send: %v\",err)", ">if a.sendInterval<0", ">>a.count++", ">>return a.recvLoop()", ">now:=time.Now()", ">if a.recvTimeout<0||a.recvTimeout>a.sendInterval", ">>_=sock.SetOption(mangos.OptionRecvDeadline,time.Duration(a.sendInterval))", ">msg,err=sock.RecvMsg()", ">switch err", ">>case mangos.ErrProtoState", ">>case mangos.ErrRecvTimeout", ">>case nil", ">>>a.printMsg(msg)", ">>>msg.Free()", ">>default", ">>>return fmt.Errorf(\"recv: %v\",err)", ">if count!=0", ">>time.Sleep(time.Duration(a.sendInterval)-time.Since(now))"]),
+  ("replyLoop", ["sock:=a.sock", "if a.sendData==nil", ">return a.recvLoop()", "for", ">msg,err:=sock.RecvMsg()", ">switch err", ">>case mangos.ErrRecvTimeout", ">>>return nil", ">>case nil", ">>default", ">>>return fmt.Errorf(\"recv: %v\",err)", ">a.printMsg(msg)", ">msg.Free()", ">msg=mangos.NewMessage(len(a.sendData))", ">msg.Body=append(msg.Body,a.sendData)", ">err=sock.SendMsg(msg)", ">if err!=nil", ">>return fmt.Errorf(\"send: %v\",err)"])
+] := by decide
+
 end Obl.Macat
